@@ -72,6 +72,8 @@ BUILTIN_OPTS = DIR_OPTS + ['buildtype', 'debug', 'optimization', 'default_librar
                            'c_std', 'c_args', 'c_link_args', 'b_ndebug', 'b_lto', 'b_staticpic', 'b_pie', 'b_asneeded',
                            'auto_features']
 FEATURE_BUILTINS = {'auto_features'}
+# per-machine options of the build machine (read in the top-level project; in a native build they are the host options)
+BUILD_MACHINE_OPTS = ['build.c_args', 'build.pkg_config_path', 'build.c_link_args']
 OPT_RE = re.compile(r"option\(\s*'([^']+)'\s*,\s*type\s*:\s*'(\w+)'([^\n]*)")
 
 
@@ -98,7 +100,7 @@ def optmsg_lines(sub: str, project_opts: T.List[T.Tuple[str, str, bool]]) -> T.L
         lines.append(f"message('OPT|@0@|{kind}|@1@|@2@'.format({msn(sub)}, {msn(name)}, {val}))")
     for name, typ, yielding in project_opts:
         one(name, typ, 'y' if yielding else 'p')
-    for name in BUILTIN_OPTS:
+    for name in BUILTIN_OPTS + (BUILD_MACHINE_OPTS if sub == '' else []):
         one(name, 'feature' if name in FEATURE_BUILTINS else 'x', 'b')
     return lines
 
@@ -328,7 +330,29 @@ def configure(srcdir: str, builddir: str, args: T.Sequence[str], trace_log: str,
             'wall': round(time.time() - t0, 2)}
 
 
-NATIVE_FILE = "[built-in options]\nwarning_level = '1'\n[properties]\nsomeprop = 'x'\n"
+MACHINE_FILES = {
+    'native.ini': "[built-in options]\nwarning_level = '1'\nc_args = ['-DFROM_NATIVE']\n[properties]\nnativeprop = 'from-native'\n",
+    'native2.ini': "[built-in options]\npkg_config_path = '/native2/pc'\n[properties]\nnative2prop = 'from-native2'\n",
+    # a "cross" build for this very machine: host == build, nothing needs a wrapper
+    'cross.ini': "[binaries]\nc = 'gcc'\ncpp = 'g++'\nar = 'ar'\nstrip = 'strip'\n[host_machine]\nsystem = 'linux'\ncpu_family = 'x86_64'\n"
+                 "cpu = 'x86_64'\nendian = 'little'\n[properties]\nneeds_exe_wrapper = false\ncrossprop = 'from-cross'\n"
+                 "[built-in options]\nc_args = ['-DFROM_CROSS']\nc_link_args = ['-Wl,--as-needed']\n",
+}
+# the configuration matrix of machine files: name -> [(flag, file)]
+MACHINE_MATRIX = {
+    'none': [],
+    'native': [('--native-file', 'native.ini')],
+    'native2': [('--native-file', 'native.ini'), ('--native-file', 'native2.ini')],
+    'cross': [('--cross-file', 'cross.ini')],
+    'cross+native': [('--cross-file', 'cross.ini'), ('--native-file', 'native.ini')],
+}
+
+
+def machine_of(job: dict) -> str:
+    m = job.get('machine')
+    if m is None:
+        m = 'native' if job.get('native') else 'none'
+    return m
 
 
 def run_job(job: dict, scratch: str) -> dict:
@@ -342,11 +366,11 @@ def run_job(job: dict, scratch: str) -> dict:
         os.makedirs(os.path.join(src, d), exist_ok=True)
     args = list(job['args'])
     extra = []
-    if job.get('native'):
-        nf = os.path.join(jd, 'native.ini')
+    for flag, fname in MACHINE_MATRIX[machine_of(job)]:
+        nf = os.path.join(jd, fname)
         with open(nf, 'w') as fh:
-            fh.write(NATIVE_FILE)
-        args += ['--native-file', nf]
+            fh.write(MACHINE_FILES[fname])
+        args += [flag, nf]
         extra.append(nf)
     trace = os.path.join(jd, 'trace.log')
     r = configure(src, bld, args, trace, extra)
@@ -1105,6 +1129,8 @@ def oracle_options(raw: dict) -> dict:
     for o in raw['observed']:
         if o['sub'] == '':
             name = o['name']
+            if o['kind'] == 'b' and name.startswith('build.') and name not in rows:
+                name = name[len('build.'):]    # native build: the build machine is the host machine
         else:
             name = o['sub'] + ':' + o['name']
             if o['kind'] == 'b' and name not in rows:
@@ -1140,31 +1166,61 @@ def oracle_files(raw: dict) -> dict:
     return {'answer': f"OK|{'1' if listed == opened else '0'}", 'violations': viol}
 
 
+def regen_inputs(raw: dict) -> T.Optional[T.List[str]]:
+    """the inputs of the statement that regenerates build.ninja, without meson's own coredata.dat"""
+    for st in read_build_statements(raw['ninja']):
+        if st['rule'] == 'REGENERATE_BUILD' and 'build.ninja' in st['outs']:
+            return [absn(raw['bld'], i) for i in st['ins'] if absn(raw['bld'], i) != os.path.join(raw['bld'], 'meson-private', 'coredata.dat')]
+    return None
+
+
+def oracle_regen(raw: dict) -> dict:
+    """intro-buildsystem_files.json against what build.ninja itself watches to decide that it must be regenerated"""
+    deps = regen_inputs(raw)
+    viol = []
+    if deps is None:
+        viol.append(('buildsystem_files:no-REGENERATE_BUILD-statement', 'build.ninja has no statement that regenerates build.ninja', {}))
+        return {'answer': 'OK|0', 'violations': viol}
+    listed = {os.path.normpath(f) for f in raw['buildsystem_files']}
+    watched = set(deps)
+
+    def cls(f):
+        return 'machine-file' if f in raw['machine_files'] else os.path.basename(f) if os.path.basename(f) in BUILD_DEF_NAMES else 'other'
+    for f in sorted(watched - listed):
+        viol.append(('buildsystem_files:REGENERATE_BUILD-input-not-listed:' + cls(f), f'build.ninja regenerates when {f!r} changes, but intro-buildsystem_files.json '
+                     f'does not list it', {'file': f, 'listed': sorted(listed)}))
+    for f in sorted(listed - watched):
+        viol.append(('buildsystem_files:listed-but-no-REGENERATE_BUILD-input:' + cls(f), f'{f!r} is in intro-buildsystem_files.json but is not an input of the '
+                     f'REGENERATE_BUILD statement', {'file': f, 'watched': sorted(watched)}))
+    return {'answer': f"OK|{'1' if listed == watched else '0'}", 'violations': viol}
+
+
 def oracle_all(raw: dict) -> dict:
     return {'targets': oracle_targets(raw), 'tests': oracle_tests(raw, 'tests'), 'benchmarks': oracle_tests(raw, 'benchmarks'),
-            'install': oracle_install(raw), 'options': oracle_options(raw), 'files': oracle_files(raw)}
+            'install': oracle_install(raw), 'options': oracle_options(raw), 'files': oracle_files(raw), 'regen': oracle_regen(raw)}
 
 
 # ------------------------------------------------------------------------------------------------ jobs
 
-CORPUS_VARIANTS: T.Dict[str, T.List[T.Tuple[str, T.List[str], bool]]] = {
-    'inst': [('default', [], False), ('prefix', ['--prefix=/opt/x', '--libdir=lib64', '--datadir=/abs/share', '--includedir=inc/x', '--mandir=man'], False),
-             ('flat-static', ['--layout=flat', '-Ddefault_library=static'], False), ('bindir', ['--bindir=/usr/local/bin2', '--libexecdir=lx', '-Ddefault_library=both'], True)],
-    'instshapes': [('default', [], False),
+CORPUS_VARIANTS: T.Dict[str, T.List[T.Tuple[str, T.List[str], str]]] = {
+    'inst': [('default', [], 'none'), ('cross', [], 'cross'), ('prefix', ['--prefix=/opt/x', '--libdir=lib64', '--datadir=/abs/share', '--includedir=inc/x', '--mandir=man'], 'none'),
+             ('flat-static', ['--layout=flat', '-Ddefault_library=static'], 'none'), ('bindir', ['--bindir=/usr/local/bin2', '--libexecdir=lx', '-Ddefault_library=both'], 'native')],
+    'instshapes': [('default', [], 'none'), ('cross+native', ['--libdir=lib'], 'cross+native'),
                    ('dirs', ['--prefix=/opt/p', '--includedir=inc', '--datadir=/abs/share', '--libdir=lib64', '--bindir=b', '--libexecdir=lx',
-                             '--sysconfdir=/etc/x', '--localstatedir=var2', '--sbindir=sb', '--mandir=mm'], False),
-                   ('flat-static', ['--layout=flat', '-Ddefault_library=static', '--includedir=include/deeper/inc'], True)],
-    'instdup': [('default', [], False)],
-    'mixed': [('default', [], False), ('ndebug', ['-Db_ndebug=true'], False), ('release', ['-Dbuildtype=release', '-Db_ndebug=if-release'], False),
-              ('std', ['-Dcpp_std=c++17', '-Dc_std=c11', '-Db_ndebug=true', '-Dwarning_level=3'], False),
-              ('unity', ['-Dunity=on', '-Db_ndebug=true'], False), ('flat-both', ['--layout=flat', '-Ddefault_library=both', '-Db_ndebug=true', '-Dwarning_level=0'], True)],
-    'tests': [('default', [], False), ('flat', ['--layout=flat'], False), ('static', ['-Ddefault_library=static', '-Dbuildtype=release'], True)],
-    'opts': [('default', [], False), ('yield-parent-set', ['-Dc=c'], False),
+                             '--sysconfdir=/etc/x', '--localstatedir=var2', '--sbindir=sb', '--mandir=mm'], 'none'),
+                   ('flat-static', ['--layout=flat', '-Ddefault_library=static', '--includedir=include/deeper/inc'], 'native')],
+    'instdup': [('cross+native', ['--prefix=/usr'], 'cross+native'), ('default', [], 'none')],
+    'mixed': [('default', [], 'none'), ('cross+native', ['-Db_ndebug=true'], 'cross+native'), ('cross', [], 'cross'), ('ndebug', ['-Db_ndebug=true'], 'none'), ('release', ['-Dbuildtype=release', '-Db_ndebug=if-release'], 'none'),
+              ('std', ['-Dcpp_std=c++17', '-Dc_std=c11', '-Db_ndebug=true', '-Dwarning_level=3'], 'none'),
+              ('unity', ['-Dunity=on', '-Db_ndebug=true'], 'none'), ('flat-both', ['--layout=flat', '-Ddefault_library=both', '-Db_ndebug=true', '-Dwarning_level=0'], 'native')],
+    'tests': [('default', [], 'none'), ('cross+native', [], 'cross+native'), ('cross', ['--layout=flat'], 'cross'), ('flat', ['--layout=flat'], 'none'), ('static', ['-Ddefault_library=static', '-Dbuildtype=release'], 'native')],
+    'opts': [('default', [], 'none'), ('yield-parent-set', ['-Dc=c'], 'none'),
              ('many', ['-Dstr=x y', '-Dflag=false', '-Dnum=10', '-Darr=q', '-Darrc=one,three', '-Dfeat=disabled', '-Dosp:sopt=cmdline', '-Dosp2:flag=true', '-Dosp:sfeat=enabled', '-Dosp:noparent=np', '-Dwerror=true',
-                       '-Dc_args=-DA,-DB'], False),
-             ('sub-builtin', ['-Dosp2:warning_level=0', '-Dosp:default_library=static', '-Dystr=p2', '-Dybool=true', '-Dyint=4'], True)],
-    'gens': [('default', [], False), ('unity', ['-Dunity=on'], False), ('unity2', ['-Dunity=on', '-Dunity_size=2', '--layout=flat'], False),
-             ('both', ['-Ddefault_library=both', '-Dbuildtype=release'], True)],
+                       '-Dc_args=-DA,-DB'], 'none'),
+             ('cross', ['-Dstr=cross'], 'cross'), ('cross+native', ['-Dc=b', '-Dbuild.c_args=-DBM'], 'cross+native'), ('native2', [], 'native2'),
+             ('sub-builtin', ['-Dosp2:warning_level=0', '-Dosp:default_library=static', '-Dystr=p2', '-Dybool=true', '-Dyint=4'], 'native')],
+    'gens': [('default', [], 'none'), ('cross', [], 'cross'), ('native2', ['-Ddefault_library=static'], 'native2'), ('unity', ['-Dunity=on'], 'none'), ('unity2', ['-Dunity=on', '-Dunity_size=2', '--layout=flat'], 'none'),
+             ('both', ['-Ddefault_library=both', '-Dbuildtype=release'], 'native')],
 }
 
 
@@ -1182,8 +1238,8 @@ def make_jobs(ctx: Ctx) -> T.List[dict]:
     jobs = []
     for name, variants in CORPUS_VARIANTS.items():
         files, empt = corpus_files(name)
-        for label, args, native in variants:
-            jobs.append({'id': f'corpus-{name}-{label}', 'kind': 'corpus', 'name': name, 'label': label, 'args': args, 'native': native,
+        for label, args, machine in variants:
+            jobs.append({'id': f'corpus-{name}-{label}', 'kind': 'corpus', 'name': name, 'label': label, 'args': args, 'machine': machine,
                          'files': files, 'emptydirs': empt, 'real_install': name in ('inst', 'instshapes')})
     n_gen = ctx.scale(24, 130)
     matrix = projgen.option_matrix()
@@ -1203,7 +1259,8 @@ def make_jobs(ctx: Ctx) -> T.List[dict]:
                 picks[0] = matrix[0]
             for vi, (mlabel, margs) in enumerate(picks):
                 jobs.append({'id': f'gen-{k}-{vi}', 'kind': 'gen', 'seed': seed, 'features': feats, 'label': mlabel,
-                             'args': list(margs) + (oargs if vi == 0 else []), 'native': rng.random() < 0.15, 'files': files})
+                             'args': list(margs) + (oargs if vi == 0 else []),
+                             'machine': rng.choices(list(MACHINE_MATRIX), weights=[45, 15, 10, 12, 18])[0], 'files': files})
     finally:
         common.rmtree(scratch)
     return jobs
@@ -1211,13 +1268,14 @@ def make_jobs(ctx: Ctx) -> T.List[dict]:
 
 # ------------------------------------------------------------------------------------------------ driving
 
-PARTS = ['targets', 'tests', 'benchmarks', 'install', 'options', 'files']
+PARTS = ['targets', 'tests', 'benchmarks', 'install', 'options', 'files', 'regen']
 
 
 def failing_input(res: dict) -> dict:
     job = res['job']
     d = {'project': job.get('name') or f"projgen seed {job.get('seed')} features {job.get('features')}", 'kind': job['kind'],
-         'setup_args': job['args'] + (['--native-file', '<native.ini>'] if job.get('native') else []), 'job_id': job['id']}
+         'setup_args': job['args'] + [w for flag, f in MACHINE_MATRIX[machine_of(job)] for w in (flag, f'<{f}>')], 'machine': machine_of(job),
+         'job_id': job['id']}
     return d
 
 
@@ -1240,7 +1298,13 @@ def evaluate(ctx: Ctx, results: T.List[dict], jobs_by_id: T.Dict[str, dict]) -> 
         lines.append('targets ' + req['targets'] + '|' + edges_field(raw['bld'], edges, read_rule_commands(raw['ninja'])))
         index.append((n, 'targets'))
         for part in PARTS[1:]:
-            lines.append(req[part])
+            if part == 'regen':
+                coredata = os.path.join(raw['bld'], 'meson-private', 'coredata.dat')
+                watched = [absn(raw['bld'], i) for e in edges if e['rule'] == 'REGENERATE_BUILD' and 'build.ninja' in e['outs']
+                           for i in e['ins'] if absn(raw['bld'], i) != coredata]
+                lines.append('files ' + L(os.path.normpath(f) for f in raw['buildsystem_files']) + '|' + L(watched))
+            else:
+                lines.append(req[part])
             index.append((n, part))
     answers = ctx.driver('intro', lines) if ctx.model_available and lines else []
     ctx.notes.append('build.ninja parsed by ' + ('the Lean manifest parser (mvdriver-ninja parse)' if used_lean_parser else 'the Python reader only (mvdriver-ninja not available)'))
@@ -1260,7 +1324,7 @@ def evaluate(ctx: Ctx, results: T.List[dict], jobs_by_id: T.Dict[str, dict]) -> 
         ctx.extra['programs'] += 1
         ctx.count(1)
         ctx.tag('project:' + job['kind'])
-        ctx.seen_nontrivial((job.get('name') or job.get('seed'), tuple(job['args']), bool(job.get('native'))))
+        ctx.seen_nontrivial((job.get('name') or job.get('seed'), tuple(job['args']), machine_of(job)))
         raw = r['raw']
         ctx.tag('targets', len(raw['targets']))
         for t in raw['targets']:
@@ -1277,7 +1341,7 @@ def evaluate(ctx: Ctx, results: T.List[dict], jobs_by_id: T.Dict[str, dict]) -> 
         if nonclass:
             ctx.tag('buildsystem_files: regeneration-dependency entries (configure_file inputs / command scripts), not judged', len(nonclass))
         if raw['machine_files']:
-            ctx.tag('native-file')
+            ctx.tag('machine-files:' + machine_of(job))
         if raw['install']['emptydirs']:
             ctx.tag('install_emptydir (not part of the property, not listed by intro-install_plan.json)')
         if 'real_install' in r['oracle']:
@@ -1336,12 +1400,12 @@ def getenv_correspondence(ctx: Ctx) -> None:
 
 
 def run(ctx: Ctx) -> None:
-    ctx.rule = ('one case per (corpus project | projgen seed, option arguments, native file); every target, test, benchmark, install record '
+    ctx.rule = ('one case per (corpus project | projgen seed, option arguments, machine files); every target, test, benchmark, install record '
                 'and observed option of a case is one evaluation')
     ctx.extra['programs'] = 0
     ctx.extra['disagreements_checked'] = 0
     ctx.assumptions += [
-        'C projects only (gcc), ninja backend, Linux; no cross files; DESTDIR empty when destinations are compared',
+        'C / C++ / .S projects (gcc), ninja backend, Linux; cross files only for host == build (no exe wrapper); DESTDIR empty when destinations are compared',
         'install_symlink / install_emptydir are not among the things the property lists: symlinks are compared in intro-installed.json only, '
         'empty directories are only counted',
         'option values without quotes, backslashes or newlines (message() formatting is then unambiguous)',
@@ -1392,10 +1456,11 @@ def replay(ctx: Ctx, rep: dict) -> None:
                 continue
             job = {'id': f'replay{n}', 'kind': 'gen', 'seed': None, 'features': None, 'label': 'replay', 'files': files}
         args = list(inp.get('setup_args', []))
-        job['native'] = '--native-file' in args
-        if job['native']:
-            k = args.index('--native-file')
-            del args[k:k + 2]
+        for flag in ('--native-file', '--cross-file'):
+            while flag in args:
+                k = args.index(flag)
+                del args[k:k + 2]
+        job['machine'] = inp.get('machine') or ('native' if '--native-file' in inp.get('setup_args', []) else 'none')
         job['args'] = args
         jobs.append(job)
     results = run_jobs(jobs)
